@@ -7,4 +7,4 @@ cd /repo && git apply "$patch" || { echo "patch does not apply"; exit 2; }
 trap 'cd /repo && git checkout -- . && git clean -fdq -- . >/dev/null 2>&1' EXIT
 cd /verif/harness && go build -tags verif -o /tmp/vh-mut . || exit 3
 /tmp/vh-mut $mode -prop $prop -seed ${VERIF_SEED:-1} -tier ${VERIF_TIER:-quick} -out /tmp/mut_rep.json
-python3 /verif/tools/showrep.py /tmp/mut_rep.json | head -${HEAD:-30} | cut -c1-220
+python3 /verif/tools/mutsum.py /tmp/mut_rep.json
